@@ -1,28 +1,50 @@
 package timeout
 
-import "time"
+import (
+	"time"
+
+	"github.com/acquirecloud/golibs/zsimrt"
+)
 
 // Test-only accessors added to the scratch copy by /verif (never to /repo).
 // zverifInit is the package's own init body (the driver renames it), so the
 // state is re-created by the package's own code inside the simulation bubble.
+// Fields are found by name through reflection (a changed queue type must not
+// break the harness build).
 
 // VerifReset re-creates the package state and sets the two knobs.
 func VerifReset(idle time.Duration, maxWorkers int) {
 	zverifInit()
 	if idle > 0 {
-		cc.idleTimeout = idle
+		zsimrt.SetIntField(cc, "idleTimeout", int64(idle))
 	}
 	if maxWorkers > 0 {
-		cc.maxWorkers = maxWorkers
+		zsimrt.SetIntField(cc, "maxWorkers", int64(maxWorkers))
 	}
 }
 
 // VerifWatchers returns the number of worker goroutines the package believes
 // it has. Read at quiescence only.
-func VerifWatchers() int { return cc.watchers }
+func VerifWatchers() int {
+	n, _ := zsimrt.IntField(cc, "watchers")
+	return n
+}
 
 // VerifPending returns the number of queued futures. Read at quiescence only.
-func VerifPending() int { return cc.futures.Len() }
+func VerifPending() int {
+	for _, name := range []string{"futures", "queue", "heap", "pending"} {
+		if f, ok := zsimrt.Field(cc, name); ok {
+			if n, ok := zsimrt.LenOf(f); ok {
+				return n
+			}
+		}
+	}
+	return 0
+}
 
 // VerifKnobs returns the effective knobs.
-func VerifKnobs() (time.Duration, int) { return cc.idleTimeout, cc.maxWorkers }
+func VerifKnobs() (time.Duration, int) {
+	i, _ := zsimrt.IntField(cc, "idleTimeout")
+	m, _ := zsimrt.IntField(cc, "maxWorkers")
+	return time.Duration(i), m
+}
